@@ -516,7 +516,18 @@ impl CodegenContext {
             Token::Align { value, .. } => {
                 if let Some(pc) = self.try_current_target_pc() {
                     if let Some(align) = self.evaluate_expression_as_i64(value, true)? {
-                        let padding = (align - (pc.as_i64() % align)) as usize;
+                        if align <= 0 {
+                            return Err(Diagnostic::error()
+                                .with_message(format!(
+                                    "cannot align to {}: the alignment must be greater than zero",
+                                    align
+                                ))
+                                .with_labels(vec![value.span.to_label()])
+                                .into());
+                        }
+                        // More padding than the address space holds can never fit: cap it, so that the segment reports
+                        // 'out of range' instead of allocating that many bytes
+                        let padding = (align - pc.as_i64().rem_euclid(align)).min(0x10001) as usize;
                         let mut bytes = Vec::new();
                         bytes.resize(padding, 0u8);
                         self.emit(value.span, &bytes)?;
